@@ -1488,12 +1488,58 @@ func c16RunSteps(r *Run, k *c16Keys, n int) {
 			r.Count("step/" + side + "/ok->" + f[1])
 			r.Distinct(op)
 		}
+		// step oracle (independent of the model): with the real validation a
+		// recipient in state registered starts expecting only for a ticket
+		// with valid offer and order signatures over a non-zero nonce that
+		// its store knows
+		if !prov && sc.validate == "real" && cur == 2 && strings.Contains(out, "exp:") &&
+			strings.HasSuffix(strings.SplitN(out, "|", 3)[2], ":1") {
+			f := strings.Split(pv, ".")
+			if !(len(f) == 5 && f[0] == "0" && f[2] == "v" && len(f[4]) == 2 && f[4][1] == 'v' && f[4][0] != '0') {
+				r.Count("oracle/violation")
+				r.Violate("recipient started expecting a channel for ticket "+pv+" that does not carry valid "+
+					"offer/order signatures of the provider for a ticket it registered", "C16/safety", []string{op})
+			}
+		}
 		if strings.Contains(out, "sub:") && strings.Contains(out, ":exists") && strings.HasPrefix(sc.submit, "real") {
 			r.Violate("the real order manager now reports ErrOrderExists in a way errors.Is matches; "+
 				"stateStepProvider then continues with a nil ticket", "C16/errexists-branch-live", op)
 		}
 	}
 	w.bids = 0
+}
+
+// c16ReplayStep re-runs one recorded single-step op.
+func c16ReplayStep(r *Run, k *c16Keys, op string) {
+	f := strings.Fields(op)
+	if len(f) != 7 {
+		return
+	}
+	w := newC16World(r, k)
+	w.rc.db = w.newDB("step-recp")
+	if err := w.rc.db.AddSidecar(k.mk("0.2.v.1.1n")); err != nil {
+		panic(err)
+	}
+	w.p.db = w.newDB("step-prov")
+	defer w.close()
+	cur, _ := strconv.Atoi(f[1])
+	prov := f[0] == "stepP"
+	sc := &c16Script{sendOk: f[4] == "1"}
+	if prov {
+		sc.updOk, sc.submit = f[5] == "1", f[6]
+	} else {
+		sc.updOk, sc.validate, sc.expect = true, f[5], f[6]
+	}
+	out := c16Step(w, prov, cur, f[2], f[3], sc)
+	r.Emit("C16 "+op, out)
+	r.Evaluations++
+	if !prov && sc.validate == "real" && cur == 2 && strings.Contains(out, "exp:") &&
+		strings.HasSuffix(strings.SplitN(out, "|", 3)[2], ":1") {
+		t := strings.Split(f[3], ".")
+		if !(len(t) == 5 && t[0] == "0" && t[2] == "v" && len(t[4]) == 2 && t[4][1] == 'v' && t[4][0] != '0') {
+			r.Violate("recipient started expecting a channel for an unvalidated ticket "+f[3], "C16/safety", []string{op})
+		}
+	}
 }
 
 // ---------------------------------------------------------------- schedule generation
@@ -1659,6 +1705,10 @@ func runC16(r *Run) {
 			continue
 		}
 		r.Count("case/fixed")
+		if len(c) == 1 && strings.HasPrefix(c[0], "step") {
+			c16ReplayStep(r, k, c[0])
+			continue
+		}
 		// a race is a coin flip in the Go runtime: try it several times
 		tries := 1
 		for _, op := range c {
